@@ -193,6 +193,7 @@ type vfC14Write struct {
 	push     bool   // PutExistingRevWithBody (replicator style) instead of Put
 	parent   string // "" = none (create / new root) or, with implicit, "whatever is current"
 	implicit bool   // Put without _rev (create, or resurrect a deleted document)
+	seen     string // implicit only: the current revision when the request was first evaluated ("" = no document yet)
 	skip     int    // push only: number of extra new generations between parent and the new revision
 	suffix   string // push only: digest part of the new revision id
 	deleted  bool
@@ -259,6 +260,11 @@ func (w *vfC14Write) dataContents() []int {
 // write APIs defines it, on the model state at the time the write is applied.
 func (w *vfC14Write) resolveParent(d *vfC14Doc) string {
 	if w.implicit {
+		// a Put without _rev builds on the current revision it finds; a request that found one keeps it
+		// when its document write is retried (it then behaves like a Put naming that revision)
+		if w.seen != "" {
+			return w.seen
+		}
 		if win := d.winner(); win != nil {
 			return win.id
 		}
